@@ -6,10 +6,11 @@
 //	limits hand-written loop programs that drive every limit of the property to
 //	       its edge and one past it, and a matrix of integer operations at the
 //	       256-bit boundary;
-//	deep   all sequences up to length L over an alphabet of ~75 macro
-//	       instructions that type-check against the observed machine state
-//	       (breadth first, merged by canonical machine state incl. hidden
-//	       counters).
+//	deep   all sequences up to length L (5 quick, 6 thorough) over an alphabet
+//	       of 76 macro instructions that type-check against the observed
+//	       machine state (breadth first, merged by canonical machine state
+//	       incl. hidden counters), and a second pass over a 34-macro core
+//	       alphabet up to length 6 (quick) / 8 (thorough).
 //
 // After EVERY instruction the machine is walked independently (oracle_test.go).
 package c12
@@ -18,6 +19,7 @@ import (
 	"encoding/hex"
 	"fmt"
 	"sort"
+	"strconv"
 	"strings"
 	"sync"
 	"testing"
@@ -50,63 +52,110 @@ type replayRec struct {
 	Disasm  string   `json:"disasm,omitempty"`
 }
 
-type stats struct {
-	r           *vk.Run
-	execs       vk.Counter // executions on the real VM
-	steps       vk.Counter // instructions executed under the per-step oracle
-	correct     vk.Counter // scripts accepted by IsScriptCorrect
-	cyclic      vk.Counter // runs in which a cycle was built
-	overCyclic  vk.Counter // runs where the VM counter exceeded the walk (only legal with a cycle)
-	runStepDiff vk.Counter // Run() and Step() ended differently (reported in coverage, not asserted)
-	deepNotStatic vk.Counter // generated programs rejected by IsScriptCorrect (harness self-check, must be 0)
-	decoderDiff vk.Counter // own decoder and IsScriptCorrect disagree (harness self-check)
-	sigs        *vk.Set
-	mu          sync.Mutex
-	maxWalk     int
-	maxInvoc    int
-	maxTry      int
-	found       map[string]*pending
+// local: per-worker counters (kept in the worker's walker, merged under the
+// lock when the worker's shard is done).
+type ocKey struct {
+	part  string
+	run   bool
+	gas   string
+	state string
 }
 
-func (s *stats) note(res *result) {
-	s.execs.Inc()
-	s.steps.Add(res.Steps)
+type local struct {
+	execs, steps, correct, cyclic, over, runStepDiff, deepNotStatic, decoderDiff int64
+	maxWalk, maxInvoc, maxTry                                                    int
+	outcomes                                                                     map[ocKey]int64
+	sigs                                                                         map[string]struct{}
+}
+
+type stats struct {
+	r     *vk.Run
+	mu    sync.Mutex
+	tot   local
+	found map[string]*pending
+}
+
+func newStats(r *vk.Run) *stats {
+	return &stats{r: r, tot: local{outcomes: map[ocKey]int64{}, sigs: map[string]struct{}{}}}
+}
+
+func (l *local) note(res *result) {
+	l.execs++
+	l.steps += int64(res.Steps)
 	if res.Cyclic {
-		s.cyclic.Inc()
+		l.cyclic++
 	}
 	if res.Over > 0 {
-		s.overCyclic.Inc()
+		l.over++
 	}
-	s.mu.Lock()
-	if res.MaxWalk > s.maxWalk {
-		s.maxWalk = res.MaxWalk
+	if res.MaxWalk > l.maxWalk {
+		l.maxWalk = res.MaxWalk
 	}
-	if res.MaxInvoc > s.maxInvoc {
-		s.maxInvoc = res.MaxInvoc
+	if res.MaxInvoc > l.maxInvoc {
+		l.maxInvoc = res.MaxInvoc
 	}
-	if res.MaxTry > s.maxTry {
-		s.maxTry = res.MaxTry
+	if res.MaxTry > l.maxTry {
+		l.maxTry = res.MaxTry
 	}
-	s.mu.Unlock()
 }
 
-func gasClass(part string, c cfg, need int64) string {
-	g := "limit"
+func (l *local) outcome(part string, c cfg, need int64, state string) {
+	if l.outcomes == nil {
+		l.outcomes = map[ocKey]int64{}
+	}
+	l.outcomes[ocKey{part, c.UseRun, gasClass(c, need), state}]++
+}
+
+// merge adds a worker's counters to the totals and resets them.
+func (s *stats) merge(w *walker) {
+	l := &w.loc
+	s.mu.Lock()
+	t := &s.tot
+	t.execs += l.execs
+	t.steps += l.steps
+	t.correct += l.correct
+	t.cyclic += l.cyclic
+	t.over += l.over
+	t.runStepDiff += l.runStepDiff
+	t.deepNotStatic += l.deepNotStatic
+	t.decoderDiff += l.decoderDiff
+	t.maxWalk = max(t.maxWalk, l.maxWalk)
+	t.maxInvoc = max(t.maxInvoc, l.maxInvoc)
+	t.maxTry = max(t.maxTry, l.maxTry)
+	for k, n := range l.outcomes {
+		t.outcomes[k] += n
+	}
+	for k := range l.sigs {
+		t.sigs[k] = struct{}{}
+	}
+	s.mu.Unlock()
+	*l = local{}
+}
+
+func gasClass(c cfg, need int64) string {
 	switch {
 	case c.Gas < 0:
-		g = "unlimited"
+		return "unlimited"
 	case need >= 0 && c.Gas == need:
-		g = "need"
+		return "need"
 	case need >= 0 && c.Gas == need-1:
-		g = "need-1"
+		return "need-1"
 	case c.Gas <= 3:
-		g = fmt.Sprintf("limit%d", c.Gas)
+		return "limit" + string(rune('0'+c.Gas))
 	}
-	m := "step"
-	if c.UseRun {
-		m = "run"
+	return "limit"
+}
+
+func (s *stats) outcomeMap() map[string]int64 {
+	o := map[string]int64{}
+	for k, n := range s.tot.outcomes {
+		m := "step"
+		if k.run {
+			m = "run"
+		}
+		o[k.part+"/"+m+"/"+k.gas+"->"+k.state] = n
 	}
-	return part + "/" + m + "/" + g
+	return o
 }
 
 // report files a finding under its class (what failed : at which instruction on
@@ -175,20 +224,24 @@ func (s *stats) flush() map[string]int {
 	return more
 }
 
-// fullCheck executes one script under every gas configuration.
-// stepAll=false: the finite limits are executed with Run() only when the
-// unlimited run was long (the per-step oracle has seen the same instruction
-// sequence already: a run under a lower limit is a prefix of it).
+// fullCheck executes one script under every gas configuration: unlimited with
+// the per-step oracle, then the finite limits {0, 1, 3, need-1, need} (need =
+// what the unlimited run consumed), each stepped and with one Run() call.
+// light (deep part): only need-1 and need, with Run().
+// A run under a lower limit executes a prefix of the same instruction sequence,
+// so long runs (> 3000 instructions) are repeated with Run() only, and a
+// script that faults on its very first instruction only under limit 0.
 func (s *stats) fullCheck(part, name string, macros []string, script []byte, base int64, budget int, w *walker, opts execOpts, light bool) (r0 result) {
+	l := &w.loc
 	bounds, decoded := boundaries(script)
 	correct := scparser.IsScriptCorrect(script, nil) == nil
 	if !correct && part == "deep" {
-		s.deepNotStatic.Inc()
+		l.deepNotStatic++
 	}
 	if correct {
-		s.correct.Inc()
+		l.correct++
 		if !decoded {
-			s.decoderDiff.Inc()
+			l.decoderDiff++
 		} else {
 			opts.bounds = bounds
 		}
@@ -196,59 +249,78 @@ func (s *stats) fullCheck(part, name string, macros []string, script []byte, bas
 	opts.w = w
 	c0 := cfg{Gas: -1, Base: base, MaxSteps: budget}
 	r0 = exec(script, c0, opts)
-	s.note(&r0)
+	l.note(&r0)
 	s.report(part, name, macros, script, c0, correct, &r0)
-	s.r.Outcome(gasClass(part, c0, -1) + "->" + r0.State)
+	l.outcome(part, c0, -1, r0.State)
 	opts.mark, opts.onMark = -1, nil
-	var limits []int64
+	var limits [5]int64
+	nl := 0
 	need := int64(-1)
-	if r0.State == "HALT" || r0.State == "FAULT" {
+	switch {
+	case r0.State == "FAULT" && r0.Steps <= 1:
 		need = (r0.OwnPico + picoPerDat - 1) / picoPerDat
-		limits = []int64{0, 1, 3, need - 1, need}
+		limits[0], nl = 0, 1
+	case r0.State == "HALT" || r0.State == "FAULT":
+		need = (r0.OwnPico + picoPerDat - 1) / picoPerDat
 		if light {
-			limits = []int64{need - 1, need}
+			limits[0], limits[1], nl = need-1, need, 2
+		} else {
+			limits = [5]int64{0, 1, 3, need - 1, need}
+			nl = 5
+			sort.Slice(limits[:], func(i, j int) bool { return limits[i] < limits[j] })
 		}
-	} else {
-		limits = []int64{0, 1, 3, 50}
+	default:
+		limits = [5]int64{0, 1, 3, 50}
+		nl = 4
 	}
-	sort.Slice(limits, func(i, j int) bool { return limits[i] < limits[j] })
 	prev := int64(-1)
-	for _, l := range limits {
-		if l < 0 || l == prev {
+	for _, lim := range limits[:nl] {
+		if lim < 0 || lim == prev {
 			continue
 		}
-		prev = l
+		prev = lim
 		var rs result
 		stepped := (r0.Steps <= 3000 && !light) || need < 0
 		if stepped {
-			c := cfg{Gas: l, Base: base, MaxSteps: budget}
+			c := cfg{Gas: lim, Base: base, MaxSteps: budget}
 			rs = exec(script, c, opts)
-			s.note(&rs)
+			l.note(&rs)
 			if rs.State == "BUDGET" && rs.F == nil {
-				rs.F = &finding{Kind: "no-termination-under-finite-gas", Step: rs.Steps, Msg: fmt.Sprintf("%d instructions executed under a limit of %d datoshi", rs.Steps, l)}
+				rs.F = &finding{Kind: "no-termination-under-finite-gas", Site: "at-end", Step: rs.Steps, Msg: fmt.Sprintf("%d instructions executed under a limit of %d datoshi", rs.Steps, lim)}
 			}
 			s.report(part, name, macros, script, c, correct, &rs)
-			s.r.Outcome(gasClass(part, c, need) + "->" + rs.State)
+			l.outcome(part, c, need, rs.State)
 		}
 		if stepped && rs.State != "HALT" && rs.State != "FAULT" {
 			continue // never call Run() on something that did not stop when stepped
 		}
-		c := cfg{Gas: l, Base: base, MaxSteps: budget, UseRun: true}
+		c := cfg{Gas: lim, Base: base, MaxSteps: budget, UseRun: true}
 		rr := exec(script, c, opts)
-		s.execs.Inc()
+		l.execs++
 		s.report(part, name, macros, script, c, correct, &rr)
-		s.r.Outcome(gasClass(part, c, need) + "->" + rr.State)
+		l.outcome(part, c, need, rr.State)
 		if stepped && (rr.State != rs.State || rr.Gas != rs.Gas) {
-			s.runStepDiff.Inc()
+			l.runStepDiff++
 		}
 	}
-	s.sigs.Add(fmt.Sprintf("%s/%d/%d/%d/%d/%d", r0.State, r0.Steps, r0.Gas, r0.MaxWalk, r0.MaxInvoc, r0.MaxTry))
+	if l.sigs == nil {
+		l.sigs = map[string]struct{}{}
+	}
+	var sig [64]byte
+	b := append(sig[:0], r0.State...)
+	for _, x := range [...]int64{int64(r0.Steps), r0.Gas, int64(r0.MaxWalk), int64(r0.MaxInvoc), int64(r0.MaxTry)} {
+		b = append(b, '/')
+		b = strconv.AppendInt(b, x, 10)
+	}
+	if _, ok := l.sigs[string(b)]; !ok {
+		l.sigs[string(b)] = struct{}{}
+	}
 	return r0
 }
 
 // ---- raw part -------------------------------------------------------------------
 
-func rawPart(s *stats, maxLen int) (scripts int64) {
+func rawPart(s *stats, from, to int) (scripts int64) {
 	const budget = 20000
 	var n vk.Counter
 	one := func(w *walker, script []byte) {
@@ -259,26 +331,33 @@ func rawPart(s *stats, maxLen int) (scripts int64) {
 		}
 	}
 	// lengths 0..2: one shard per first byte; length 3: one shard per two first bytes.
-	w0 := newWalker()
-	one(w0, []byte{})
-	s.r.Parallel(256, func(i int) {
-		w := newWalker()
-		one(w, []byte{byte(i)})
-		if maxLen >= 2 {
-			for j := 0; j < 256; j++ {
-				one(w, []byte{byte(i), byte(j)})
+	if from <= 0 {
+		w0 := newWalker()
+		one(w0, []byte{})
+		s.merge(w0)
+	}
+	if from <= 2 && to >= 1 {
+		s.r.Parallel(256, func(i int) {
+			w := newWalker()
+			one(w, []byte{byte(i)})
+			if to >= 2 {
+				for j := 0; j < 256; j++ {
+					one(w, []byte{byte(i), byte(j)})
+				}
 			}
-		}
-	})
-	if maxLen >= 3 {
+			s.merge(w)
+		})
+	}
+	if from <= 3 && to >= 3 {
 		s.r.Parallel(65536, func(i int) {
 			w := newWalker()
 			for k := 0; k < 256; k++ {
 				if k%64 == 0 && s.r.Expired() {
-					return
+					break
 				}
 				one(w, []byte{byte(i >> 8), byte(i), byte(k)})
 			}
+			s.merge(w)
 		})
 	}
 	return n.Get()
@@ -289,41 +368,54 @@ func rawPart(s *stats, maxLen int) (scripts int64) {
 func TestCheck(t *testing.T) {
 	r := vk.Start("C12", "model_checking", 150*time.Second, 24*time.Minute)
 	r.SetSampleCap(16)
-	s := &stats{r: r, sigs: vk.NewSet()}
+	s := newStats(r)
 	if r.Replay != "" {
 		replay(r, s)
 		return
 	}
 	rawLen := vk.Pick(r, 2, 3)
 	depth := vk.Pick(r, 5, 6)
+	coreDepth := vk.Pick(r, 6, 8)
 
+	// Order: what the quick tier does comes first, so a thorough run that hits
+	// its deadline on a busy machine still contains the quick one.
 	t0 := time.Now()
 	nLimit, limitMiss := limitsPart(s)
 	tLimits := time.Since(t0).Seconds()
 
 	t0 = time.Now()
-	nRaw := rawPart(s, rawLen)
+	nRaw := rawPart(s, 0, 2)
 	tRaw := time.Since(t0).Seconds()
-	rawCorrect := s.correct.Get()
 
 	t0 = time.Now()
-	d := deepPart(s, depth)
+	d := deepPart(s, depth, alphabetMask(nil), true)
 	tDeep := time.Since(t0).Seconds()
 
-	fmt.Printf("C12 %s: limits %d programs %.1fs | raw len<=%d %d scripts %.1fs | deep L=%d levels=%v states=%d programs=%d %.1fs | execs=%d steps=%d\n",
-		r.Tier, nLimit, tLimits, rawLen, nRaw, tRaw, depth, d.levelSizes, d.states, d.programs, tDeep, s.execs.Get(), s.steps.Get())
+	t0 = time.Now()
+	dc := deepPart(s, coreDepth, alphabetMask(coreAlphabet), false)
+	tCore := time.Since(t0).Seconds()
+
+	if rawLen >= 3 {
+		t0 = time.Now()
+		nRaw += rawPart(s, 3, 3)
+		tRaw += time.Since(t0).Seconds()
+	}
+	fmt.Printf("C12 %s: limits %d programs %.1fs | raw len<=%d %d scripts %.1fs | deep L=%d levels=%v states=%d programs=%d %.1fs | core L=%d levels=%v states=%d programs=%d %.1fs | execs=%d steps=%d\n",
+		r.Tier, nLimit, tLimits, rawLen, nRaw, tRaw, depth, d.levelSizes, d.states, d.programs, tDeep, coreDepth, dc.levelSizes, dc.states, dc.programs, tCore, s.tot.execs, s.tot.steps)
 
 	inputsPerClass := s.flush()
+	outcomes := s.outcomeMap()
 	r.Finish(map[string]any{
 		"failing_inputs_per_class":      inputsPerClass,
-		"states":                        d.states + s.sigs.Len(),
-		"transitions":                   int(s.steps.Get()),
-		"traces_validated_against_impl": int(s.execs.Get()),
-		"rule":                          "states = distinct canonical machine states of the deep part (stacks, slots, compound graph with sharing, try/call brackets, hidden counters) + distinct run signatures elsewhere; transitions = VM instructions executed with the full oracle after each; traces = executions on the real VM",
+		"states":                        d.states + dc.states + len(s.tot.sigs),
+		"transitions":                   int(s.tot.steps),
+		"traces_validated_against_impl": int(s.tot.execs),
+		"rule":                          "states = distinct canonical machine states of the deep passes (stacks, slots, compound graph with sharing, try/call brackets, hidden counters) + distinct run signatures elsewhere; transitions = VM instructions executed with the full oracle after each; traces = executions on the real VM",
+		"distinct_outcomes":             len(outcomes),
+		"outcomes":                      outcomes,
 		"raw_max_length":                rawLen,
 		"raw_scripts":                   int(nRaw),
-		"raw_scripts_passing_static":    int(rawCorrect),
-		"raw_gas_limits":                "unlimited, 0, 1, 3, need-1, need (datoshi; base price 1.2345 datoshi per unit), each stepped and with Run()",
+		"raw_gas_limits":                "unlimited, 0, 1, 3, need-1, need (datoshi; base price 1.2345 datoshi per unit), each stepped and with Run(); scripts faulting on their first instruction: unlimited and 0 only",
 		"limit_programs":                nLimit,
 		"limit_programs_missing_target": limitMiss,
 		"deep_depth":                    depth,
@@ -331,23 +423,32 @@ func TestCheck(t *testing.T) {
 		"deep_level_sizes_after_merge":  d.levelSizes,
 		"deep_candidates_per_level":     d.levelCands,
 		"deep_programs_executed":        d.programs,
-		"deep_programs_faulted":         d.faulted,
-		"deep_mark_missed":              d.markMissed,
-		"deep_programs_failing_static":  int(s.deepNotStatic.Get()),
+		"deep_programs_not_halting":     d.faulted + dc.faulted,
+		"deep_mark_missed":              d.markMissed + dc.markMissed,
+		"deep_programs_failing_static":  int(s.tot.deepNotStatic),
 		"deep_states_with_sharing":      d.shared,
 		"deep_states_after_cycle":       d.cyclic,
 		"deep_states_in_call":           d.inCall,
 		"deep_states_in_try":            d.inTry,
 		"deep_witness_sequences":        d.witness,
-		"scripts_passing_static_check":  int(s.correct.Get()),
-		"runs_with_cycle":               int(s.cyclic.Get()),
-		"runs_vm_counter_above_walk":    int(s.overCyclic.Get()),
-		"run_vs_step_differences":       int(s.runStepDiff.Get()),
-		"own_decoder_vs_static_check":   int(s.decoderDiff.Get()),
-		"max_reachable_items_seen":      s.maxWalk,
-		"max_invocation_depth_seen":     s.maxInvoc,
-		"max_try_depth_seen":            s.maxTry,
-		"wall_limits_raw_deep_s":        []float64{tLimits, tRaw, tDeep},
+		"core_depth":                    coreDepth,
+		"core_alphabet":                 coreAlphabet,
+		"core_level_sizes_after_merge":  dc.levelSizes,
+		"core_candidates_per_level":     dc.levelCands,
+		"core_programs_executed":        dc.programs,
+		"core_states_with_sharing":      dc.shared,
+		"core_states_after_cycle":       dc.cyclic,
+		"core_states_in_call":           dc.inCall,
+		"core_states_in_try":            dc.inTry,
+		"scripts_passing_static_check":  int(s.tot.correct),
+		"runs_with_cycle":               int(s.tot.cyclic),
+		"runs_vm_counter_above_walk":    int(s.tot.over),
+		"run_vs_step_differences":       int(s.tot.runStepDiff),
+		"own_decoder_vs_static_check":   int(s.tot.decoderDiff),
+		"max_reachable_items_seen":      s.tot.maxWalk,
+		"max_invocation_depth_seen":     s.tot.maxInvoc,
+		"max_try_depth_seen":            s.tot.maxTry,
+		"wall_limits_raw_deep_core_s":   []float64{tLimits, tRaw, tDeep, tCore},
 	}, []string{
 		"one script per VM, loaded with vm.Load, no syscall handler and no CALLT tokens (SYSCALL/CALLT fault): contexts of other scripts, whose evaluation stacks are separate, are not reached",
 		"unlimited gas (limit -1) may legitimately not terminate; such runs stop at the instruction budget and are then re-run under finite limits only",
@@ -355,6 +456,7 @@ func TestCheck(t *testing.T) {
 		"the exactness assertion (VM counter == walk) is switched off for the rest of a run once an APPEND/SETITEM inserts an item from which the container is reachable",
 		"the offset len(script), where the implicit RET is executed, counts as an instruction boundary",
 		"unexported state read by the harness: Context.tryStack (length only); rc.count of compounds is read for state merging only, never asserted",
+		"one violation per class of finding (what : instruction[operand kinds]), carrying the smallest failing input; failing_inputs_per_class counts the rest",
 	})
 }
 
